@@ -145,11 +145,14 @@ class Explorer(object):
         self.heads = {n.id: n for n in self.cfg.nodes if n.kind == 'nop' and n.name == 'loop-head'}
         self._loop_info = None
         self.cursors = {}     # decl id -> name
+        self.pcursors = {}    # decl id of a char** parameter -> '*name'
         self.scalars = {}     # decl id -> name
         for d in list(fn.params) + list(fn.locals()):
             t = u.ty(d['ty'])
             if t['c'] == 'ptr' and 'char' in t['s'] and t['s'].count('*') == 1:
                 self.cursors[d['d']] = d['n']
+            elif t['c'] == 'ptr' and 'char' in t['s'] and t['s'].count('*') == 2 and d in fn.params:
+                self.pcursors[d['d']] = '*' + d['n']        # the caller's cursor behind a char** parameter
             elif t['c'] in ('int', 'enum', 'bool'):
                 self.scalars[d['d']] = d['n']
         self.param_ids = {p['d'] for p in fn.params}
@@ -196,6 +199,8 @@ class Explorer(object):
             e = strip_casts(e['e'])
         if e.get('k') == 'ref' and e.get('d') in self.cursors:
             return self.cursors[e['d']]
+        if e.get('k') == 'un' and e['op'] == '*' and strip_casts(e['e']).get('k') == 'ref' and strip_casts(e['e']).get('d') in self.pcursors:
+            return self.pcursors[strip_casts(e['e'])['d']]
         return None
 
     def pos_of(self, x, st):
@@ -308,7 +313,7 @@ class Explorer(object):
         if e.get('null'):
             return (('null',), 0)
         e = strip_casts(e)
-        c = self.cursor_of(e) if e.get('k') == 'ref' else None
+        c = self.cursor_of(e) if (e.get('k') == 'ref' or (e.get('k') == 'un' and e.get('op') == '*')) else None
         if c is not None:
             return st.cur.get(c)
         if e.get('k') == 'ref' and e.get('n') in self.tables and e.get('dk') in ('global', 'slocal'):
@@ -818,6 +823,16 @@ class Explorer(object):
         s2.cur = cur
         s2.B = {}
         s2.vals = {n: ('d', 0) for n in self.scalars.values()}
+        # a scalar that holds an input byte keeps holding it: the byte's position is re-expressed relative to the new roots
+        # (current = lookahead; ++cursor; at the top of the next round `current` is the byte under the cursor)
+        remap = {}
+        for root, members in groups.items():
+            lead = max(d for d, _c in members)
+            leaders = sorted(c for d, c in members if d == lead)
+            remap[root] = (('g',) + tuple(leaders), lead)
+        for n, v in st.vals.items():
+            if v is not None and v[0] == 'in' and v[1] in remap and n not in self.assume and -2 <= v[2] - remap[v[1]][1] <= 8:
+                s2.vals[n] = ('in', remap[v[1]][0], v[2] - remap[v[1]][1])       # bytes far behind the cursor are let go
         for n, v in self.assume.items():
             # an assumed parameter keeps its value as long as the function never assigns it
             if n in self.scalars.values() and n not in self.assigned_scalars:
@@ -838,6 +853,8 @@ class Explorer(object):
         st.cur = {}
         for d, n in self.cursors.items():
             st.cur[n] = (('p', n), 0) if d in self.param_ids else None
+        for d, n in self.pcursors.items():
+            st.cur[n] = (('p', n), 0)
         st.B = {}
         st.vals = {}
         for d, n in self.scalars.items():
@@ -876,7 +893,8 @@ class Explorer(object):
                 # arriving at a loop head ends the segment; the next one starts from a re-based, forgotten state
                 self.close(st, ('head', st.nid), node)
                 s2 = self.rebase(st, st.nid)
-                key = (st.nid, tuple(sorted(s2.cur.items(), key=repr)))
+                key = (st.nid, tuple(sorted(s2.cur.items(), key=repr)),
+                       tuple(sorted((n, v) for n, v in s2.vals.items() if v is not None and v[0] == 'in')))
                 if key not in head_seen:
                     head_seen.add(key)
                     work.append(s2)
@@ -922,7 +940,20 @@ class Explorer(object):
                             moves = True
                         elif ev.kind == 'call':
                             moves = True
-                info[h] = (mods, moves or inner)
+                # only loops with a bound of their own: some test of the stepped scalars alone (no input byte in it) leaves the loop
+                bounded = False
+                for nid in body:
+                    n = self.cfg.nodes[nid]
+                    if n.kind != 'branch' or n.expr is None:
+                        continue
+                    refs = [x for x in walk(n.expr) if x.get('k') == 'ref']
+                    loads = [x for x in walk(n.expr) if (x.get('k') == 'idx' or (x.get('k') == 'un' and x.get('op') == '*')) and
+                             access(x) is not None and self.cursor_of(access(x)[0]) is not None]
+                    if loads or not any(x.get('d') in self.scalars and self.scalars[x['d']] in mods for x in refs):
+                        continue
+                    if any(y not in body for (y, _l) in self.cfg.succ[nid]):
+                        bounded = True
+                info[h] = (mods, moves or inner or not bounded)
             self._loop_info = info
         mods, blocked = self._loop_info[st.nid]
         if blocked or not mods:
@@ -1012,7 +1043,7 @@ class Explorer(object):
         if ev.kind == 'incdec':
             c = self.cursor_of(ev.lhs)
             t = strip_casts(ev.lhs)
-            if c is not None and t.get('k') == 'ref':
+            if c is not None and (t.get('k') == 'ref' or c.startswith('*')):
                 p = st.cur.get(c)
                 if p is not None and p[1] is not None:
                     st.cur[c] = (p[0], p[1] + ev.delta)
@@ -1041,8 +1072,9 @@ class Explorer(object):
                 target = strip_casts(ev.lhs)
                 op = ev.node['op']
                 rhs = ev.node['r']
-            if target.get('k') == 'ref' and target.get('d') in self.cursors:
-                c = self.cursors[target['d']]
+            if (target.get('k') == 'ref' and target.get('d') in self.cursors) or \
+                    (target.get('k') == 'un' and target.get('op') == '*' and (self.cursor_of(target) or '').startswith('*')):
+                c = self.cursor_of(target)
                 if op == '=':
                     found = self.table_search(rhs, st, loadpos)
                     if found is not None:
@@ -1060,6 +1092,10 @@ class Explorer(object):
                     p = st.cur.get(c)
                     if p is not None and p[1] is not None and k is not None:
                         st.cur[c] = (p[0], p[1] + (k if op == '+=' else -k))
+                    elif p is not None and p[1] is not None and op == '+=' and self.delta_base(rhs) is not None and \
+                            (self.value_of(rhs, st, loadpos) or (None,))[0] == 'd':
+                        # cursor += counter: the position that reads through cursor[counter] designate
+                        st.cur[c] = (('ix', p[0], self.delta_base(rhs)), p[1] + self.value_of(rhs, st, loadpos)[1])
                     elif p is not None:
                         st.cur[c] = (p[0], None)
                 return [st]
